@@ -158,6 +158,97 @@ def _mk_fd_calls(real_os):
     return {"pwrite": pwrite, "pread": pread, "write": write, "read": read, "lseek": lseek, "ftruncate": ftruncate}
 
 
+def _is_sim_path(k, path):
+    """Paths inside the simulated namespace: everything under the kernel's root directory (the check's working directory,
+    where no real regular file ever lives)."""
+    if k is None or isinstance(path, (int, bytes)):
+        return False
+    try:
+        p = k.norm(path)
+    except TypeError:
+        return False
+    return p == k.root or p.startswith(k.root.rstrip("/") + "/")
+
+
+def _mk_path_calls(real_os, real_fdopen):
+    """os-level calls that take PATHS (code that goes below pathlib / open): os.open, replace, rename, remove, unlink,
+    truncate, listdir on the simulated namespace; os.close and os.fdopen for the descriptors os.open handed out."""
+    import os as _os
+
+    def os_open(path, flags, mode=0o777, *a, **kw):
+        k = K.CURRENT
+        if not _is_sim_path(k, path):
+            return real_os["open"](path, flags, mode, *a, **kw)
+        k.counters["seam:open"] += 1
+        acc = flags & (_os.O_RDONLY | _os.O_WRONLY | _os.O_RDWR)
+        exists = k.norm(path) in k.files
+        if flags & _os.O_CREAT and flags & _os.O_EXCL:
+            m = "x+b"
+        elif flags & _os.O_TRUNC and (flags & _os.O_CREAT or exists):
+            m = "w+b"
+        elif flags & _os.O_CREAT and not exists:
+            m = "x+b"
+        elif acc == _os.O_RDONLY:
+            m = "rb"
+        else:
+            m = "r+b"
+        fd = k.sys_open(path, m)
+        if acc == _os.O_WRONLY:
+            fd.readable = False
+        if acc == _os.O_RDONLY:
+            fd.writable = False
+        if flags & _os.O_APPEND:
+            fd.append = True
+        return K.SIM_FD_BASE + fd.fd
+
+    def os_close(fd):
+        k, f = _sim_fd(fd)
+        return real_os["close"](fd) if f is None else k.sys_close(f)
+
+    def fdopen(fd, mode="r", buffering=-1, *a, **kw):
+        k, f = _sim_fd(fd) if isinstance(fd, int) else (None, None)
+        if f is None:
+            return real_fdopen(fd, mode, buffering, *a, **kw)
+        return K.sim_open(fd, mode if "b" in mode else mode + "b", buffering)
+
+    def two(name, op):
+        def fn(src, dst, *a, **kw):
+            k = K.CURRENT
+            if _is_sim_path(k, src) and _is_sim_path(k, dst):
+                return k.sys_rename(src, dst)
+            return real_os[name](src, dst, *a, **kw)
+        return fn
+
+    def one(name):
+        def fn(path, *a, **kw):
+            k = K.CURRENT
+            if _is_sim_path(k, path) and k.norm(path) in k.files:
+                return k.sys_unlink(path)
+            return real_os[name](path, *a, **kw)
+        return fn
+
+    def truncate(path, length):
+        k = K.CURRENT
+        if isinstance(path, int) or not _is_sim_path(k, path) or k.norm(path) not in k.files:
+            return real_os["truncate"](path, length)
+        fd = k.sys_open(path, "r+b")
+        try:
+            k.sys_truncate(fd, length)
+        finally:
+            k.sys_close(fd)
+
+    def listdir(path="."):
+        k = K.CURRENT
+        names = real_os["listdir"](path)
+        if _is_sim_path(k, path):
+            d = k.norm(path).rstrip("/") + "/"
+            names = sorted(set(names) | {p_[len(d):] for p_ in k.files if p_.startswith(d) and "/" not in p_[len(d):]})
+        return names
+
+    return {"open": os_open, "close": os_close, "fdopen": fdopen, "replace": two("replace", "rename"), "rename": two("rename", "rename"),
+            "remove": one("remove"), "unlink": one("unlink"), "truncate": truncate, "listdir": listdir}
+
+
 def _mk_stat(real):
     def stat(path, *a, **kw):
         k = K.CURRENT
@@ -214,6 +305,7 @@ def _build_patches():
         (_os, "fsync", _mk_fsync(_os.fsync)),
         (_os, "fdatasync", _mk_fsync(_os.fdatasync)),
         (_os, "fstat", _mk_fstat(_os.fstat)),
+    ] + [(_os, n_, f_) for n_, f_ in _mk_path_calls({n_: getattr(_os, n_) for n_ in ("open", "close", "replace", "rename", "remove", "unlink", "truncate", "listdir")}, _os.fdopen).items()] + [
     ] + [(_os, n_, f_) for n_, f_ in _mk_fd_calls({n_: getattr(_os, n_) for n_ in ("pwrite", "pread", "write", "read", "lseek", "ftruncate")}).items()] + [
         (_os, "stat", _mk_stat(_os.stat)),
         (molli.storage.ukvfile, "Path", K.SimPath),
